@@ -1,5 +1,71 @@
-import Logg.Model.Encoder
+/-
+  C04 — JSON mode: each record is one line of valid JSON decoding to what was logged.
+
+  Proved here, for the encoder model tied byte for byte to the code: the JSON escaper is safe for ALL byte
+  strings (well-formed string body, no control byte), and a whole record is one line. That the nested
+  structure is a valid JSON object decoding to the logged values is decided per generated record by the
+  encoding/json oracle — see DESIGN.md.
+-/
+import Logg.Lemmas.EncoderClean
+
 namespace Logg.Props.C04
-open Logg
-example : jsonQuote [97] = [34, 97, 34] := by decide
+open Logg Logg.Lemmas
+
+/-- (1) Whatever bytes a message, a key, the logger name or a string-like value contains (quotes,
+    backslashes, CR/LF, control characters, invalid UTF-8), what is written is `"` body `"` where body
+    is a well-formed JSON string body: no unescaped quote, no raw control byte, only the escapes
+    `\" \\ \n \r \t \uXXXX`. No input can close the string early, break the line or forge a member. -/
+theorem json_string_wellformed (s : Bytes) :
+    ∃ body, jsonQuote s = 34 :: body ++ [34] ∧ jsonBodyOK body = true := jsonQuote_wellformed s
+
+theorem json_string_has_no_control_byte (s : Bytes) : NoC0 (jsonQuote s) := jsonQuote_noC0 s
+
+/-- keys are written through the same escaper -/
+theorem json_keys_are_escaped (isPrint : Nat → Bool) (k : Bytes) :
+    ({ fmt := .json, isPrint := isPrint } : EncCfg).key k = jsonQuote k := rfl
+
+/-- (2) A JSON record occupies exactly one line: `{ … }` followed by one line feed, with no control byte
+    before it — for every message, logger name, key and value (nothing is assumed about them), groups
+    nested to any depth. Only the texts rendered by the standard library (timestamp, floats, times) are
+    assumed free of control bytes. -/
+theorem json_one_line (p : Presentation) (depth : Nat) (r : Record) (out : Bytes)
+    (hts : NoC0 r.ts) (hattrs : ∀ a ∈ r.attrs, attrOK false depth a = true)
+    (h : encodeRecord .json isPrintTable p depth r = some out) :
+    ∃ body, out = body ++ [10] ∧ NoC0 body := by
+  unfold encodeRecord at h
+  split at h
+  · cases h; exact ⟨[], rfl, fun c hc => by simp at hc⟩
+  · simp only [] at h
+    cases h
+    refine ⟨_, rfl, ?_⟩
+    exact plainBody_noC0 { fmt := .json, isPrint := isPrintTable } ⟨by decide, isPrintTable_safe⟩ _ depth r hts
+      (by intro a ha; have := hattrs a ha; simpa [EncCfg.json] using this)
+
+/-- (3) The record is an object: it starts with `{` and ends with `}` before the line feed. -/
+theorem json_record_is_braced (isPrint : Nat → Bool) (name : Bytes) (depth : Nat) (r : Record) :
+    ∃ mid, plainBody { fmt := .json, isPrint := isPrint } name depth r = 123 :: mid ++ [125] := by
+  refine ⟨(plainHead { fmt := .json, isPrint := isPrint } name r).drop 1 ++
+      encTopAttrs { fmt := .json, isPrint := isPrint } depth r.attrs ++ plainCaller { fmt := .json, isPrint := isPrint } r, ?_⟩
+  simp [plainBody, plainHead, EncCfg.json]
+
+/-- (4) Values: nil is `null`; a group is a nested object `{…}`; unsigned, float and complex numbers are
+    written as strings holding the exact decimal text, signed integers as numbers. -/
+theorem json_values (isPrint : Nat → Bool) (pfx : Bytes) (fuel : Nat) :
+    let c : EncCfg := { fmt := .json, isPrint := isPrint }
+    encVal c fuel pfx .nil = [110, 117, 108, 108] ∧
+    (∀ i, encVal c fuel pfx (.int i) = intDigits i) ∧
+    (∀ n, encVal c fuel pfx (.uint n) = [34] ++ natDigits n ++ [34]) ∧
+    (∀ t, encVal c fuel pfx (.float t) = [34] ++ t ++ [34]) ∧
+    (∀ items, ∃ mid, encVal c (fuel + 1) pfx (.group items) = [123] ++ mid ++ [125]) := by
+  refine ⟨?_, ?_, ?_, ?_, ?_⟩
+  · cases fuel <;> simp [encVal, EncCfg.json]
+  · intro i; cases fuel <;> simp [encVal]
+  · intro n; cases fuel <;> simp [encVal, jsonQuoted, EncCfg.json]
+  · intro t; cases fuel <;> simp [encVal, jsonQuoted, EncCfg.json]
+  · intro items; exact ⟨encAttrs { fmt := .json, isPrint := isPrint } fuel pfx true (prepAttrs items), by simp [encVal, EncCfg.json]⟩
+
+-- non-vacuity: BEL, VT, an invalid byte and U+2028 inside a string
+example : jsonQuote [7, 11, 255, 0xE2, 0x80, 0xA8] =
+    [34, 92, 117, 48, 48, 48, 55, 92, 117, 48, 48, 48, 98, 92, 117, 102, 102, 102, 100, 92, 117, 50, 48, 50, 56, 34] := by decide
+
 end Logg.Props.C04
